@@ -82,10 +82,22 @@ func (b *siteBuilder) doc(levels int) string {
 	r := &Res{Kind: kind}
 	n := 1 + b.pick("docassets", 3)
 	for i := 0; i < n; i++ {
-		if levels > 0 && b.pick("nest", 2) == 0 {
+		switch {
+		case levels > 0 && b.pick("nest", 2) == 0:
 			r.Assets = append(r.Assets, b.doc(levels-1))
 			b.feat["asset-of-asset"] = true
-		} else {
+		case b.pick("nestredir", 5) == 0:
+			// a nested resource served through a redirect (to a leaf or to a further document): redirects
+			// add no depth, and the depth limit applies to their targets all the same
+			ru := b.name("r", ".dat") // with an extension: JSON documents queue extension-less URLs as outlinks instead
+			tgt := b.leaf()
+			if levels > 0 && b.pick("redirtodoc", 2) == 0 {
+				tgt = b.doc(levels - 1)
+			}
+			b.site[ru] = &Res{Kind: "redirect", Status: []int{301, 302, 303, 307}[b.pick("code", 4)], Loc: tgt}
+			r.Assets = append(r.Assets, ru)
+			b.feat["nested-asset-redirect"] = true
+		default:
 			r.Assets = append(r.Assets, b.leaf())
 		}
 	}
